@@ -461,6 +461,8 @@ class Coordinator(object):
 
         self._state = "[joining]"
         yield self.on_join_prepare()
+        if self._stopping:
+            return
         join_response = yield self.send_join_group_request()
         if not join_response or self._stopping:
             # join failed, we'll be called again after a small delay
@@ -480,6 +482,8 @@ class Coordinator(object):
                 )
             except _NeedTopicPartitions as e:
                 topic_partitions = yield self.client._load_topic_partitions(*e.topics)
+                if self._stopping:
+                    return
                 assignments = yield self.protocol.generate_assignments(
                     join_response.members,
                     topic_partitions=topic_partitions,
